@@ -176,5 +176,5 @@ def run(ctx):
         m = [[rng.randint(0, 1) for _ in range(nc)] for _ in range(nr)]
         do(ctx, 'z2rank', ['np', m], nontrivial=('z', str(m)))
     # histories on one reused object: lazily kept results must follow every in-place update
-    for _ in range(int(40 * B)):
+    for _ in range(int(120 * B)):
         do(ctx, 'history', ['state', rng.randint(1, 4), rng.randrange(10 ** 6), rng.randint(4, 12), ['entropy']], nontrivial=('h', 'state', ctx.res.evaluations))
